@@ -315,6 +315,7 @@ inductive Op where
   | reset
   | chan (l r : Ch)
   | vmeta (l : Ch)
+  | migrate                                      -- the transfer module's metadata migration: every stored trace
   | seqset (l : Ch) (n : Nat)                    -- the next send sequence of channel `l` jumps forward to `n`
   | fund (a : Addr) (t : Tok) (l : Ch) (amt : Nat)
   | recv (l : Ch) (t : Tok) (k : RKind) (to : Addr) (amt : Nat) (m : Memo) (snd : Nat)
@@ -592,6 +593,7 @@ def stepWith (cfg : Cfg) (s : State) : Op → State × Out
   | .reset => (init, .ok)
   | .chan l r => ({ s with ctl := { s.ctl with cp := (l, r) :: s.ctl.cp.filter (fun p => p.1 != l) } }, .ok)
   | .vmeta l => ({ s with ctl := { s.ctl with vmeta := l :: s.ctl.vmeta } }, .ok)
+  | .migrate => ({ s with ctl := { s.ctl with vmeta := s.ctl.cp.map (·.1) ++ s.ctl.vmeta } }, .ok)
   | .seqset l n =>
     if sget s.ctl.next l + 1 < n then ({ s with ctl := { s.ctl with next := sset s.ctl.next l (n - 1) } }, .ok) else (s, .ok)
   | .fund a t l amt =>
@@ -632,6 +634,7 @@ def parseOp (line : String) : Op :=
     match l.toNat?, r.toNat? with
     | some l, some r => .chan l r
     | _, _ => .bad
+  | ["migrate"] => .migrate
   | ["meta", l] =>
     match l.toNat? with
     | some l => .vmeta l
